@@ -59,8 +59,45 @@ def files_read(prop):
 READS = {p: files_read(p) for p in PROPS}
 outdir = Path('/verif/fjverif/selftest/equiv'); outdir.mkdir(exist_ok=True)
 summary = []
+def robust_edits(wt, pf):
+    """(rel, old chunk, new chunk) edits computed from the patched files themselves (git apply in the worktree), with enough
+    context for each old chunk to be unique and non-overlapping - independent of how the diff hunks were cut."""
+    import difflib, subprocess
+    subprocess.run(['git', 'checkout', '--', '.'], cwd=wt, capture_output=True)
+    r = subprocess.run(['git', 'apply', str(pf)], cwd=wt, capture_output=True, text=True)
+    if r.returncode != 0:
+        return None
+    files = subprocess.run(['git', 'diff', '--name-only'], cwd=wt, capture_output=True, text=True).stdout.split()
+    eds = []
+    for rel in files:
+        new = (wt / rel).read_text()
+        old = subprocess.run(['git', 'show', f'HEAD:{rel}'], cwd=wt, capture_output=True, text=True).stdout
+        a, b = old.split('\n'), new.split('\n')
+        blocks = [op for op in difflib.SequenceMatcher(None, a, b, autojunk=False).get_opcodes() if op[0] != 'equal']
+        merged = []
+        for tag, i1, i2, j1, j2 in blocks:
+            ctx = 3
+            lo_a, hi_a, lo_b, hi_b = max(0, i1 - ctx), min(len(a), i2 + ctx), max(0, j1 - (i1 - max(0, i1 - ctx))), min(len(b), j2 + (min(len(a), i2 + ctx) - i2))
+            if merged and lo_a <= merged[-1][1]:
+                merged[-1] = [merged[-1][0], hi_a, merged[-1][2], hi_b]
+            else:
+                merged.append([lo_a, hi_a, lo_b, hi_b])
+        for lo_a, hi_a, lo_b, hi_b in merged:
+            while True:
+                oc = '\n'.join(a[lo_a:hi_a])
+                if old.count(oc) == 1 or (lo_a == 0 and hi_a == len(a)):
+                    break
+                if lo_a > 0:
+                    lo_a -= 1; lo_b -= 1
+                if hi_a < len(a):
+                    hi_a += 1; hi_b += 1
+            eds.append((rel, '\n'.join(a[lo_a:hi_a]), '\n'.join(b[lo_b:hi_b])))
+    subprocess.run(['git', 'checkout', '--', '.'], cwd=wt, capture_output=True)
+    return eds
+
+
 for pf in sorted((wt / '_eq').glob('patch_*.diff')):
-    eds = hunks(pf.read_text())
+    eds = robust_edits(wt, pf) or hunks(pf.read_text())
     if not eds:
         print(pf.name, 'no edits parsed'); continue
     k = re.search(r'patch_(\w+)\.diff', pf.name).group(1)
